@@ -360,6 +360,11 @@ def ob_map_where_join(chk, P, n_max):
                 want = [repr(prop_value(e)) for e in elems if e.kind == 'obj' and e.prop_kind != 'missing']
                 margs = Adt('MapArgs', None, [expr_stub(str_value('p'), 'property')], ['property'])
                 run_case('map', 'MapFilter', margs, elems, st.clone(), lambda got, want=want: z3.BoolVal(got != want), "map: 'p'")
+                # a property NAME that the path syntax would answer synthetically (size / first / last): no element has it, so nothing is selected
+                if n <= 2:
+                    for pname in ('size', 'first'):
+                        margs2 = Adt('MapArgs', None, [expr_stub(str_value(pname), 'property')], ['property'])
+                        run_case('map', 'MapFilter', margs2, elems, st.clone(), lambda got: z3.BoolVal(got != []), f"map: '{pname}'")
             for kinds in kinds_product(pool, n):
                 st = State(); elems = mk_elems(st, kinds)
                 wargs = Adt('WhereArgs', None, [expr_stub(str_value('p'), 'property'), NONE], ['property', 'target_value'])
@@ -505,7 +510,9 @@ def py_expect(name, vals, g, tpl_filter):
         else: out = [v for v in vals if v is not None]
     elif name == 'reverse': out = list(reversed(vals))
     elif name == 'concat': out = list(vals) + list(g.get('b', []))
-    elif name == 'map': out = [v['p'] for v in vals if isinstance(v, dict) and 'p' in v]
+    elif name == 'map':
+        key = tpl_filter.split("'")[1] if "'" in tpl_filter else 'p'
+        out = [v[key] for v in vals if isinstance(v, dict) and key in v]
     elif name == 'where': out = [v for v in vals if isinstance(v, dict) and v.get('p') not in (None, False)]
     elif name == 'where-eq': out = [v for v in vals if isinstance(v, dict) and type(v.get('p')) is int and v.get('p') == g.get('t')]
     elif name in ('first', 'last'):
